@@ -22,7 +22,7 @@ type c07Case struct {
 	Special string   `json:"special,omitempty"`
 }
 
-var c07Items = []string{"T", "PA", "PO", "IFA", "SD", "SN", "SM", "T2", "IFSD", "EACHSN", "ELSESM", "ELIFSD"}
+var c07Items = []string{"T", "PA", "PO", "IFA", "SD", "SN", "SM", "T2", "IFSD", "EACHSN", "ELSESM", "ELIFSD", "EACHELSESD", "FORELSESN"}
 
 func c07XNodes(items []int) (nodes []*Node, slots []string) {
 	for pos, ix := range items {
@@ -37,7 +37,8 @@ func c07XNodes(items []int) (nodes []*Node, slots []string) {
 			// o comes from the data; e is data too, but shadowed by the loop variable when the use sits in a loop (place 2)
 			nodes = append(nodes, nText("o="), nPrint(eVar("o")), nText(";e="), nPrint(eVar("e")), nText(";"))
 		case "IFA":
-			nodes = append(nodes, &Node{K: "if", E: eVar("a"), Body: []*Node{nText("Y")}, HasElse: true, Else: []*Node{nText("N")}})
+			// text before and after an expression in the first branch
+			nodes = append(nodes, &Node{K: "if", E: eVar("a"), Body: []*Node{nText("<b>"), nPrint(eVar("a")), nText("</b>Y")}, HasElse: true, Else: []*Node{nText("N")}})
 		case "SD":
 			nodes = append(nodes, &Node{K: "slot", Name: ""})
 			slots = append(slots, "")
@@ -55,6 +56,13 @@ func c07XNodes(items []int) (nodes []*Node, slots []string) {
 			slots = append(slots, "")
 		case "EACHSN":
 			nodes = append(nodes, &Node{K: "each", Name: "q", E: &Expr{Op: "arr", Kids: []*Expr{eLit(vInt(1)), eLit(vInt(2))}}, Body: []*Node{nText("<"), {K: "slot", Name: "n"}, nText(">")}})
+			slots = append(slots, "n")
+		case "EACHELSESD": // placeholders in the @else of the component's own loops
+			nodes = append(nodes, &Node{K: "each", Name: "q", E: &Expr{Op: "arr"}, Body: []*Node{nText("no")}, HasElse: true, Else: []*Node{nText("{e"), {K: "slot", Name: ""}, nText("}")}})
+			slots = append(slots, "")
+		case "FORELSESN":
+			nodes = append(nodes, &Node{K: "for", Init: nAssign("j", eLit(vInt(0))), Cond: eBin("<", eVar("j"), eLit(vInt(0))), Post: nPrint(&Expr{Op: "inc", Kids: []*Expr{eVar("j")}}),
+				Body: []*Node{nText("no")}, HasElse: true, Else: []*Node{nText("{f"), {K: "slot", Name: "n"}, nText("}")}})
 			slots = append(slots, "n")
 		case "ELSESM":
 			nodes = append(nodes, &Node{K: "if", E: eLit(vBool(false)), Body: []*Node{nText("no")}, HasElse: true, Else: []*Node{nText("{"), {K: "slot", Name: "m"}, nText("}")}})
@@ -75,6 +83,18 @@ func c07UseNode(u c07Use, idx int, xSlots []string, loopVar string) *Node {
 		n.Name = "~y"
 		declared = []string{""}
 	}
+	// a placeholder name declared at two places is still one slot for the caller
+	uniq := []string{}
+	for _, d := range declared {
+		dup := false
+		for _, u := range uniq {
+			dup = dup || u == d
+		}
+		if !dup {
+			uniq = append(uniq, d)
+		}
+	}
+	declared = uniq
 	lit := vInt(int64(100 + idx))
 	switch u.Arg {
 	case 1:
@@ -187,6 +207,18 @@ func c07Build(cs c07Case) c07Built {
 	case "undeclared-default-slot":
 		b.tree.Files["x.tw"] = `<x>@slot("n")</x>`
 		b.tree.Files["index.tw"] = `@component("x")@slot body@end@end`
+		b.loadErr = []string{"x"}
+	case "undeclared-slot-second-use": // the faulty use is the second use of the component in the file
+		b.tree.Files["x.tw"] = `<x>@slot("n")</x>`
+		b.tree.Files["index.tw"] = `@component("x")@slot("n")ok@end@end|@component("x")@slot("zz")body@end@end`
+		b.loadErr = []string{"x"}
+	case "slot-twice-second-use":
+		b.tree.Files["x.tw"] = `<x>@slot("n")@slot</x>`
+		b.tree.Files["index.tw"] = `@component("x")|@component("x")@slot("n")one@end@slot("n")two@end@end`
+		b.loadErr = []string{"x"}
+	case "undeclared-slot-after-other-component":
+		b.tree.Files["x.tw"] = `<x>@slot("n")</x>`
+		b.tree.Files["index.tw"] = `@component("~y", {a: 1})@slot d@end@end|@component("x")@slot("zz")body@end@end`
 		b.loadErr = []string{"x"}
 	case "slot-twice":
 		b.tree.Files["x.tw"] = `<x>@slot("n")@slot</x>`
@@ -308,23 +340,25 @@ func c07Run(c *Ctx) {
 		}
 		return true
 	}
+	// a component may show one slot at several places (the same placeholder name twice): every placeholder is
+	// replaced. Only three or more placeholders of one name are left out (nothing new, larger space).
 	distinctSlots := func(idx []int) bool {
-		seen := map[string]bool{}
+		seen := map[string]int{}
 		for _, ix := range idx {
 			it := c07Items[ix]
 			switch it {
-			case "IFSD", "ELIFSD":
+			case "IFSD", "ELIFSD", "EACHELSESD":
 				it = "SD"
-			case "EACHSN":
+			case "EACHSN", "FORELSESN":
 				it = "SN"
 			case "ELSESM":
 				it = "SM"
 			}
 			if it == "SD" || it == "SN" || it == "SM" {
-				if seen[it] {
+				seen[it]++
+				if seen[it] > 2 {
 					return false
 				}
-				seen[it] = true
 			}
 		}
 		return true
@@ -406,7 +440,8 @@ func c07Run(c *Ctx) {
 		}
 	}
 	if c.Mine() {
-		for _, sp := range []string{"undeclared-slot", "undeclared-default-slot", "slot-twice", "default-slot-twice", "missing-component", "missing-alias-component"} {
+		for _, sp := range []string{"undeclared-slot", "undeclared-default-slot", "slot-twice", "default-slot-twice", "missing-component", "missing-alias-component",
+			"undeclared-slot-second-use", "slot-twice-second-use", "undeclared-slot-after-other-component"} {
 			if !do(c07Case{X: []int{0, 4, 5}, Special: sp}) {
 				return
 			}
@@ -418,7 +453,7 @@ func init() {
 	p := &Property{
 		ID:    "C07",
 		Level: "exploration",
-		Rule: "bounded-exhaustive template trees on disk: every component file that is a sequence of <=k items from {text, {{ a }}, {{ o }} (outer variable), @if(a)…@else…@end, @slot, @slot(\"n\"), @slot(\"m\"), and the same placeholders nested inside @if / @each / @else blocks of the component} with distinct slots; pages with one, two and three uses — the same component used repeatedly with different argument variants (none, literal, data variable, loop variable / concatenation, shadowing an outer variable with the same and with a different type, falsy) and slot variants (none, all declared, first only, last only, bodies unique per use), a second component addressed through ~, placed at top level, inside @if, inside @each, inside an insert of a layout page and inside another component's slot body; plus undeclared / duplicate slots and missing component files.  [as built: the component also prints a surrounding variable that a loop at the place of use shadows; slot bodies written in a loop print the loop variable]" +
+		Rule: "bounded-exhaustive template trees on disk: every component file that is a sequence of <=k items from {text, {{ a }}, {{ o }} (outer variable), @if(a)…@else…@end, @slot, @slot(\"n\"), @slot(\"m\"), and the same placeholders nested inside @if / @each / @else blocks of the component}, a placeholder name occurring at most twice; pages with one, two and three uses — the same component used repeatedly with different argument variants (none, literal, data variable, loop variable / concatenation, shadowing an outer variable with the same and with a different type, falsy) and slot variants (none, all declared, first only, last only, bodies unique per use), a second component addressed through ~, placed at top level, inside @if, inside @each, inside an insert of a layout page and inside another component's slot body; plus undeclared / duplicate slots and missing component files.  [as built: the component also prints a surrounding variable that a loop at the place of use shadows; slot bodies written in a loop print the loop variable]" +
 			"Reference: RefTW; every use carries unique markers, so cross-talk between uses is visible. Non-trivial: the page uses the same component at least twice, or is a fault case",
 		Bounds: func(tier string) map[string]any {
 			if tier == "thorough" {
